@@ -19,7 +19,7 @@ import re
 
 from .common import HARNESS_DIR
 
-KEYS = {"props", "tier", "unwind", "unwindset", "timeout", "mem", "encodes", "vars",
+KEYS = {"like", "props", "tier", "unwind", "unwindset", "timeout", "mem", "encodes", "vars",
         "bounds", "outside", "clause", "stubs_note", "expect"}
 
 
@@ -75,6 +75,7 @@ class Harness:
 
 def load_harnesses():
     res = []
+    metas = {}
     for path in sorted(glob.glob(os.path.join(HARNESS_DIR, "*_h.rs"))):
         module = os.path.basename(path)[:-len("_h.rs")]
         meta = {}
@@ -97,6 +98,14 @@ def load_harnesses():
                     continue
                 m = re.match(r"(?:pub(?:\([a-z]+\))?\s+)?fn\s+([A-Za-z0-9_]+)\s*\(", s)
                 if m and pending_proof:
+                    if "like" in meta:
+                        base = metas.get(meta["like"].strip())
+                        if base is None:
+                            raise SystemExit("%s: `like: %s` refers to an unknown (later?) harness" % (m.group(1), meta["like"]))
+                        merged = dict(base)
+                        merged.update({k: v for k, v in meta.items() if k != "like"})
+                        meta = merged
+                    metas[m.group(1)] = dict(meta)
                     res.append(Harness(m.group(1), module, meta, ln))
                     meta = {}
                     last_key = None
